@@ -131,6 +131,7 @@ func (c *Chain) EngineStream(n int) {
 		}
 		for _, v := range vs {
 			res := RunTransition(c.Spec, pre, nil, sb, hs.Blk.Fork, true, v.mode, v.at, -1)
+			c.notePartial(&res)
 			tag := "kind=engine"
 			if v.mode == "none" {
 				tag += " variant=engine_missing"
